@@ -82,7 +82,7 @@ class Noise(Family):
             snr = ctx.real("snr")
             ctx.assume(ctx.And(ctx.le(-40, snr), ctx.le(snr, 60)))
         elif mode == "db-array":
-            sv = [10, 20, 0, -10, 30, 5][:L]
+            sv = ([10, 20, 0, -10, 30, 5] * 2)[:L]
             snr = arr(ctx, [ctx.const(v) if ctx.symbolic else float(v) for v in sv])
         else:
             # passed as an exact term in the symbolic run (a Python int would make `10 ** (snr / 10)` a float
